@@ -40,6 +40,8 @@ B_THOROUGH = 12_000_000
 TOL_INT = 1e-9
 TOL_SPHERE = 1e-13
 CORPUS = [("ahrens_beylkin", 39), ("ahrens_beylkin", 127)]
+MAXREP = 5            # grids reported per (method, kind of violation)
+REFUTE_MAX = 3_000_000  # N*(l+1) bound for a kernel-checked refutation
 SHORT = {"lebedev": "lebedev", "spherical": "spherical", "maxdet": "maxdet", "ahrens_beylkin": "ab"}
 PI_LO = Fraction(3141592653589793238462643383279, 10**30)
 PI_HI = Fraction(3141592653589793238462643383280, 10**30)
@@ -158,6 +160,22 @@ def tlist(ints3):
     return "[" + ";\n".join(f"(({a}),({b}),({c}))" for a, b, c in ints3) + "]"
 
 
+CHUNK = 1000
+
+
+def chunked_def(name, typ, items, fmt):
+    """Definition of a long list as a concatenation of chunks (the parser overflows its stack on very long literals)."""
+    if len(items) <= CHUNK:
+        return f"Definition {name} : list ({typ}) := {fmt(items)}.\n"
+    parts, out = [], []
+    for k in range(0, len(items), CHUNK):
+        pn = f"{name}_c{k // CHUNK}"
+        out.append(f"Definition {pn} : list ({typ}) := {fmt(items[k:k + CHUNK])}.\n")
+        parts.append(pn)
+    out.append(f"Definition {name} : list ({typ}) := " + " ++ ".join(parts) + ".\n")
+    return "".join(out)
+
+
 def natlit(n):
     return str(n) if n <= 2000 else f"(Z.to_nat {n}%Z)"
 
@@ -170,8 +188,7 @@ def grid_data_text(tag, p, w):
     s, P = dyadic_ints(p)
     sw, W = dyadic_ints(w)
     P3 = [tuple(P[3 * i:3 * i + 3]) for i in range(len(p))]
-    txt = (f"Definition ps_{tag} : list (bigZ * bigZ * bigZ) := {tlist(P3)}.\n"
-           f"Definition ws_{tag} : list bigZ := {blist(W)}.\n")
+    txt = chunked_def(f"ps_{tag}", "bigZ * bigZ * bigZ", P3, tlist) + chunked_def(f"ws_{tag}", "bigZ", W, blist)
     return s, sw, txt
 
 
@@ -359,7 +376,8 @@ def run(ctx: Ctx):
     t_sw = time.time()
     with cf.ProcessPoolExecutor(max_workers=16) as ex:
         sweep = {(r["method"], r["degree"]): r for r in ex.map(sweep_one, joblist, chunksize=1)}
-    ctx.cov["sweep_s"] = round(time.time() - t_sw, 1)
+    phase = ctx.cov.setdefault("phase_s", {})
+    phase["sweep"] = round(time.time() - t_sw, 1)
     ctx.cov["sweep_full_degree"] = sum(1 for j in joblist if j[3] == j[1])
     ctx.cov["sweep_low_degree_only"] = sum(1 for j in joblist if j[3] != j[1])
 
@@ -385,8 +403,12 @@ def run(ctx: Ctx):
         info[(meth, deg)] = {"file": fname, "tag": tag, "s": s, "sw": sw, "size": size, "dirn": dirn, "p": p, "w": w, "cost": cost}
 
     # ---------------- prove
+    phase["gen"] = round(time.time() - t_sw - phase["sweep"], 1)
+    t_ph = time.time()
     ctx.copy_coq("C02")
     status = ctx.coq_build(timeout_per_file=1500)
+    phase["coq_build"] = round(time.time() - t_ph, 1)
+    t_ph = time.time()
     ctx.register_props(status)
     okgrids, badgrids = [], []
     for key, gi in info.items():
@@ -417,6 +439,8 @@ def run(ctx: Ctx):
         ok, out = ctx.coq_run("C02_cover_props.v", txt, timeout=900)
         ctx.logs["C02_cover_props.v"] = out
         ctx.register_props({**status, "C02_cover_props.v": ok})
+    phase["cover"] = round(time.time() - t_ph, 1)
+    t_ph = time.time()
     ctx.cov["covered_grids"] = {m: sorted(k[1] for k in okgrids if k[0] == m) for m, _, _, _ in c12.METHODS}
 
     # ---------------- correspond: AngularGrid(...) against the model, inside Coq, for every grid under B
@@ -462,6 +486,8 @@ def run(ctx: Ctx):
         hdr = ("From Coq Require Import ZArith List Bool.\nFrom Bignums Require Import BigZ.\n"
                f"From P Require Import C02_model C02_gen {req}.\nImport ListNotations.\nOpen Scope bigZ_scope.\n")
         bad_corr = [meta[i] for i in ctx.coq_bool_cases("C02_corr", hdr, cases, shard=12)]
+    phase["correspond"] = round(time.time() - t_ph, 1)
+    t_ph = time.time()
     for key, gi in list(info.items())[:2]:
         ctx.sample({"grid": f"{key[0]}_{key[1]}", "N": gi["size"], "scale_points": gi["s"], "scale_weights": gi["sw"],
                     "kernel_check": key in okgrids, "cost": gi["cost"]})
@@ -486,8 +512,23 @@ def run(ctx: Ctx):
         if r["viol"]:
             viol_by_grid[key] = r["viol"]
 
+    # report at most MAXREP grids per (method, kind), smallest first (plus the corpus); the rest is summarised
+    groups = {}
+    for key, vs in viol_by_grid.items():
+        kind = sorted(vs, key=lambda c: ["crash", "size", "wsum", "sphere", "lm"].index(c["kind"]))[0]["kind"]
+        groups.setdefault((key[0], kind), []).append(key)
+    report = set()
+    for (meth_, kind_), keys in groups.items():
+        keys.sort(key=lambda k: sweep[k]["size"])
+        report.update(keys[:MAXREP])
+        report.update(k for k in keys if k in CORPUS)
+        if len(keys) > MAXREP:
+            ctx.notes.append(f"{len(keys)} grids of method {meth_} violate the property in the same way ({kind_}); "
+                             f"{MAXREP} smallest reported, all degrees: {sorted(k[1] for k in keys)}")
     refuted_files = {}
     for key, vs in viol_by_grid.items():
+        if key not in report:
+            continue
         meth, deg = key
         size = sweep[key]["size"]
         v = sorted(vs, key=lambda c: ["crash", "size", "wsum", "sphere", "lm"].index(c["kind"]))[0]
@@ -517,7 +558,8 @@ def run(ctx: Ctx):
                        f"ps_{tag} ws_{tag} {name} (proj1 (Nat.leb_le {l} {deg}) (eq_refl true)))")
             else:
                 chk = None
-            if chk is not None and libs_ok:
+            work = size * ((v["l"] if v["kind"] == "lm" else 0) + 1)
+            if chk is not None and libs_ok and work <= REFUTE_MAX:
                 txt = (GRID_HDR.replace("C02_model C02_gen", "C02_model C02_gen C02_sums C02_proofs") + data +
                        f"Theorem {name} : {chk} = true.\nProof. vm_cast_no_check (eq_refl true). Qed.\n"
                        f"Theorem {name[:-8]}_not_exact : ~ grid_exact {deg} {natlit(size)} (real_pts {s_} ps_{tag}) "
@@ -547,10 +589,18 @@ def run(ctx: Ctx):
             ctx.add_obligation(name, ok, n)
             if not ok:
                 ctx.logs[n] = out[-3000:]
+    phase["refute"] = round(time.time() - t_ph, 1)
     ctx.cov["refuted_in_kernel"] = sorted(name for _, (_, name, _) in refuted_files.items())
 
     # grids whose kernel check failed without a concrete failing quantity from the oracle
     for key in badgrids:
+        if key in viol_by_grid and key not in report:
+            ctx.add_obligation(f"grid_exact_{info[key]['tag']}", False, info[key]["file"])
+            r_ = sweep[key]
+            v_ = sorted(r_["viol"], key=lambda c: ["crash", "size", "wsum", "sphere", "lm"].index(c["kind"]))[0]
+            ctx.fail(f"grid_exact_{info[key]['tag']}", f"{key[0]}_{key[1]}_{info[key]['size']}.npz:{v_['kind']}", v_.get("observed"),
+                     f"{key[0]}_{key[1]}_{info[key]['size']}.npz violates the property ({v_['kind']}: {v_.get('observed')}); see the notes for the full list",
+                     replay_of(key[0], key[1], info[key]["size"], v_))
         if key not in viol_by_grid:
             gi = info[key]
             ctx.fail(f"grid_exact_{gi['tag']}", f"{key[0]}_{key[1]}_{gi['size']}.npz:kernel-check", None,
